@@ -282,3 +282,17 @@ package linker
 // filtered list the code generator prints (ambiguous `export *` names and re-exported TypeScript types are
 // dropped there), not the unfiltered table of resolved exports.
 //@ hashed metafile-exports-are-the-emitted-exports C19: func=(*linkerContext).generateChunkJS ; in=linker ; sink=AddString:1 ; scenario=metafile_ambiguous_export ; must=JSReprMeta.SortedAndFilteredExportAliases>AddString
+
+// C07 ("every mapping is true ... after banners, CRLF/non-ASCII input"): LineColumnOffset.AdvanceString treats "\r\n"
+// as one line break only when both bytes are in the SAME call. The banner is user text and may end in "\r"
+// (--banner:js="$(cat crlf-header.txt)"), and the linker appends "\n": the two must be advanced together, never the
+// banner alone followed by a separate AdvanceString("\n"), or every mapping of the chunk lands one line too low.
+//@ flow banner-advanced-with-its-newline.js C07: func=(*linkerContext).generateChunkJS ; in=linker ; site=call AdvanceString ; scenario=banner_cr_mappings ; argnot=1:c.options.JSBanner
+//@ flow banner-advanced-with-its-newline.css C07: func=(*linkerContext).generateChunkCSS ; in=linker ; site=call AdvanceString ; scenario=banner_cr_mappings ; argnot=1:c.options.CSSBanner
+
+// C07 ("every mapping is true: ... of the named source file"): the rules of an imported CSS file are printed with
+// THAT file's source index and line table, so every Loc inside them must be a Loc of that file. The wrappers built for
+// import conditions must therefore not carry the prelude/queries cloned from `conditions` (they belong to the
+// IMPORTING file) with their Locs intact.
+//@ flow wrapper-locs-belong-to-the-printed-file.media C07: func=wrapRulesWithConditions ; in=linker ; site=store RAtMedia.Queries ; scenario=css_import_condition_mapping ; value-not-from=conditions
+//@ flow wrapper-locs-belong-to-the-printed-file.prelude C07: func=wrapRulesWithConditions ; in=linker ; site=store RKnownAt.Prelude ; scenario=css_import_condition_mapping ; value-not-from=conditions
